@@ -6,6 +6,7 @@ for p in $(python3 -c "import json;print(' '.join(c['property_id'] for c in json
   out=$(bin/check $p --tier quick 2>&1); rc=$?
   line=$(echo "$out" | grep "^property $p:" | tail -1)
   echo "$p exit=$rc $(echo "$line" | cut -c1-110)"
+  echo "$out" | grep -q "^UNMATCHED-CALLSITE" && { fail=1; echo "$out" | grep "^UNMATCHED-CALLSITE"; }
   [ $rc -ne 0 ] && { fail=1; echo "$out" | grep "^VIOLATION\|^obligation\|^TOOL\|^STALE" | head -5; }
 done
 python3-vt - <<'PY'
